@@ -462,6 +462,10 @@ class DynamicSlicer:
         # dominated by the loops to which they are connected, and this is not necessarily
         # reflected in the CDG.
         dominated_nodes = cdg.get_descendants(node)
+        if cdg.graph.has_edge(node, node):
+            # A block that ends with the test of its own loop (loop inversion) is control
+            # dependent on itself: instructions of a later iteration depend on this test.
+            dominated_nodes = dominated_nodes | {node}
         dominator_loops = cdg.get_dominator_loops(node)
         dominated_instr_ctrl_deps = {
             instr
